@@ -33,7 +33,7 @@ def strategy(tier):
 
     def one(name):
         return st.fixed_dictionaries({"recipe": st.just(name), "opts": RECIPES[name].opts(tier), "payload_seed": SEED,
-                                      "a": st.sampled_from(SCAL), "b": st.sampled_from(SCAL), "k": st.integers(1, 3),
+                                      "a": st.sampled_from(SCAL), "b": st.sampled_from(SCAL), "k": st.sampled_from([2, 3, 3, 4]),
                                       # split: w1 and w2 seed complementary subsets of the outputs (the others stay
                                       # None), so that the combined seed has a different None-pattern than either part
                                       "split": st.booleans(),
